@@ -59,7 +59,7 @@ Inductive op :=
 
 Definition apply_op (s : fs) (o : op) : fs :=
   match o with
-  | OMkdir => {| dir := true; files := files s |}
+  | OMkdir => if dir s then s else {| dir := true; files := [] |}
   | OTrunc n => if dir s then {| dir := true; files := set n [] (files s) |} else s
   | OWrite n d =>
     match get s n with
@@ -350,3 +350,36 @@ Fixpoint mismatches_from (i : N) (cs : list pcase) : list N :=
   end.
 
 Definition mismatches (cs : list pcase) : list N := mismatches_from 0 cs.
+
+(** ** Shape of a script at the level of the Go calls (for the source facts):
+    os.WriteFile = open-truncate + write, os.Rename; arguments are numbered
+    by first appearance like the translator does. *)
+Fixpoint index_of (n : name) (l : list name) : option nat :=
+  match l with
+  | [] => None
+  | m :: l' => if String.eqb n m then Some O else match index_of n l' with Some i => Some (S i) | None => None end
+  end.
+
+Definition arg_name (i : nat) : string :=
+  ("a" ++ String (Ascii.ascii_of_nat (48 + i)) EmptyString)%string.
+
+(** [seen] = names already numbered (the directory is always a0) *)
+Fixpoint call_shape (seen : list name) (ops : list op) : list string :=
+  match ops with
+  | [] => []
+  | OMkdir :: r => call_shape seen r
+  | OTrunc n :: r =>
+    let seen' := match index_of n seen with Some _ => seen | None => seen ++ [n] end in
+    match index_of n seen' with
+    | Some i => ("write(" ++ arg_name i ++ ")")%string :: call_shape seen' r
+    | None => call_shape seen' r
+    end
+  | OWrite _ _ :: r => call_shape seen r
+  | ORename a b :: r =>
+    let seen1 := match index_of a seen with Some _ => seen | None => seen ++ [a] end in
+    let seen2 := match index_of b seen1 with Some _ => seen1 | None => seen1 ++ [b] end in
+    match index_of a seen2, index_of b seen2 with
+    | Some i, Some j => ("rename(" ++ arg_name i ++ "," ++ arg_name j ++ ")")%string :: call_shape seen2 r
+    | _, _ => call_shape seen2 r
+    end
+  end.
